@@ -52,7 +52,7 @@ def rand_feature_set(r, n):
         if r.random() < 0.05:
             end = "."
         # sequence names that differ only in letter case are different sequences ('chr1' / 'Chr1' / 'CHR1')
-        feats.append({"id": "f%d" % i, "seqid": r.choice(["chr1", "chr1", "chr1", "chr2", "Chr1", "CHR1"]), "start": start, "end": end,
+        feats.append({"id": "f%d" % i, "seqid": r.choice(["chr1"] * 7 + ["chr2", "chr2", "Chr1", "CHR1"]), "start": start, "end": end,
                       "strand": r.choice(["+", "-", "."]), "ftype": r.choice(["gene", "exon", "CDS"]),
                       "parent": None})
     for f in feats[1:]:
@@ -311,7 +311,7 @@ def rand_iquery(r, feats, kinds=KINDS):
         a = boundary_coord(r)
         b = a + r.choice([0, 1, SIZES[0], SIZES[1], SIZES[2]])
     kind = r.choice(kinds)
-    q = {"query": kind, "seqid": r.choice(["chr1", "chr1", "chr1", "chr2", "Chr1", "CHR1"]), "start": a, "end": b,
+    q = {"query": kind, "seqid": r.choice(["chr1"] * 7 + ["chr2", "chr2", "Chr1", "CHR1"]), "start": a, "end": b,
          "completely_within": r.random() < 0.35, "strand": r.choice([None, None, None, "+", "-"]),
          "featuretype": r.choice([None, None, None, "exon", ["exon", "CDS"], ["gene"]])}
     if kind == "one_sided":
@@ -521,6 +521,27 @@ def run(ctx):
                         got = "err " + dbside.err_name(ex)
                     cmds.append("region %s 0 %d %s ~ %s" % (enc("chr1"), e0, enc(ws), "1" if within else "0"))
                     exp.append(got); tags.append(("region(start=0, strand=%r)" % ws, repr(e0)))
+    # directed, every run: VERY WIDE completely_within regions (100 ... 400 Mb: 800 ... 3300 bins, around and far beyond
+    # the number of bins up to which the pre-filter is used) over features spread along 260 Mb, some near the far end
+    wide = []
+    for j in range(44):
+        p0 = j * 6000000 + 5
+        wide.append({"id": "w%d" % j, "seqid": "chr1", "start": str(p0), "end": str(p0 + 40 + 1000 * (j % 3)),
+                     "strand": "+-"[j % 2], "ftype": "gene", "parent": None})
+    wlines = lines_of(wide)
+    wdb, wrep = dbside.py_create(dbside.write_lines(os.path.join(ctx.scratch, "c06w.gff3"), wlines), dbside.Cfg())
+    if wdb is None:
+        common.fail(res, mk_case("import", wlines, wide, []), "create_db_raised", "create_db raised: " + wrep, error=wrep)
+    else:
+        for W in (100000000, 105000000, 110000000, 117000000, 117900000, 118000000, 119000000, 125000000, 150000000,
+                  200000000, 262000000, 400000000):
+            for kind in ("region_tuple", "region_str", "limit_all"):
+                for within in (True, False):
+                    q = {"query": kind, "seqid": "chr1", "start": 1, "end": W, "completely_within": within, "strand": None,
+                         "featuretype": None}
+                    res.evaluations += 1
+                    res.count("very_wide_region_%s" % ("within" if within else "overlap"))
+                    check_query(mk_case("query", wlines, wide, [], query=q, no_shrink=True), wdb, wide, res)
     out = ctx.model(cmds)
     if out is not None:
         for c, m, e, (comp, inp) in zip(cmds, out, exp, tags):
